@@ -161,6 +161,67 @@ type sockServer struct {
 	wg   sync.WaitGroup
 	mu   sync.Mutex
 	cs   []net.Conn
+	taps []*readTap // what each accepted connection delivered to ServeAgent (the peer's bytes on the wire)
+}
+
+// readTap records the bytes ServeAgent reads from a connection.
+type readTap struct {
+	net.Conn
+	mu  sync.Mutex
+	log []byte
+}
+
+func (t *readTap) Read(p []byte) (int, error) {
+	n, err := t.Conn.Read(p)
+	if n > 0 {
+		t.mu.Lock()
+		t.log = append(t.log, p[:n]...)
+		t.mu.Unlock()
+	}
+	return n, err
+}
+
+// takeWire returns the request frames received on all connections since the
+// previous call (each connection starts frame-aligned).
+func (s *sockServer) takeWire() [][]byte {
+	s.mu.Lock()
+	defer s.mu.Unlock()
+	var out [][]byte
+	for _, t := range s.taps {
+		t.mu.Lock()
+		out = append(out, splitFrames(t.log)...)
+		t.mu.Unlock()
+	}
+	s.taps = nil
+	return out
+}
+
+// wirePassphrases extracts the passphrases of the lock (22) / unlock (23)
+// requests among frames, decoded with the harness's own reader.
+func wirePassphrases(frames [][]byte, typ byte) [][]byte {
+	var out [][]byte
+	for _, f := range frames {
+		if len(f) > 0 && f[0] == typ {
+			r := &rd{b: f[1:]}
+			p := r.str()
+			if r.err == nil {
+				out = append(out, append([]byte(nil), p...))
+			}
+		}
+	}
+	return out
+}
+
+// askpassLine is what a passphrase becomes on its way through an askpass
+// helper and ssh-add's read_passphrase: one line of a C string.
+func askpassLine(pw []byte) []byte {
+	if i := bytes.IndexAny(pw, "\n\r\x00"); i >= 0 {
+		pw = pw[:i]
+	}
+	if len(pw) > 1023 {
+		pw = pw[:1023]
+	}
+	return pw
 }
 
 func listenAgent(m *mon.M, dir string, ag agent.Agent) (*sockServer, error) {
@@ -179,10 +240,15 @@ func listenAgent(m *mon.M, dir string, ag agent.Agent) (*sockServer, error) {
 			if err != nil {
 				return
 			}
+			rt := &readTap{Conn: c}
 			s.mu.Lock()
 			s.cs = append(s.cs, c)
+			s.taps = append(s.taps, rt)
+			if len(s.taps) > 64 { // streams that never take the tap
+				s.taps = s.taps[1:]
+			}
 			s.mu.Unlock()
-			serve(m, &s.wg, ag, c, func() { c.Close() })
+			serve(m, &s.wg, ag, rt, func() { c.Close() })
 		}
 	}()
 	return s, nil
@@ -402,10 +468,17 @@ type addEnv struct {
 	plain   string // directory with key + .pub
 	certs   string // directory with key + .pub + -cert.pub
 	askpass string
+	srv     *sockServer
 }
 
 func (e *addEnv) run(pw string, args ...string) (string, string, int) {
 	cmd := exec.Command("ssh-add", args...)
+	if e.srv != nil {
+		e.srv.takeWire() // only this invocation's requests are looked at afterwards
+	}
+	if i := strings.IndexByte(pw, 0); i >= 0 {
+		pw = pw[:i] // an environment value is a C string; the askpass line ends there anyway
+	}
 	cmd.Env = append(os.Environ(), "SSH_AUTH_SOCK="+e.sock, "SSH_ASKPASS="+e.askpass, "SSH_ASKPASS_REQUIRE=force", "DISPLAY=:verif", "VERIF_PW="+pw)
 	cmd.Stdin = nil
 	var o, er bytes.Buffer
@@ -456,6 +529,36 @@ func (e *addEnv) judge(kind agentmodel.Kind, check func(c recCall) string) (call
 		}
 	}
 	return calls, allOK, allFail, true
+}
+
+// passCheck judges the passphrase the server decoded from a lock/unlock
+// request. The reference is what ssh-add actually put on the wire (the
+// server-side byte tap, decoded by the harness's own reader): ssh-add reads
+// the passphrase from its askpass helper as one line of a C string, so a
+// passphrase containing \n, \r or NUL reaches the wire cut at that byte. What
+// the harness handed to askpass is compared with the wire only as a
+// plausibility check of the harness itself (never a violation of the package).
+func (e *addEnv) passCheck(typ byte, given string) func(c recCall) string {
+	wire := wirePassphrases(e.srv.takeWire(), typ)
+	idx := 0
+	return func(c recCall) string {
+		if idx >= len(wire) {
+			return fmt.Sprintf("the server reports a passphrase request (%q) that is not on the wire", c.op.Pass)
+		}
+		sent := wire[idx]
+		idx++
+		if !bytes.Equal(sent, askpassLine([]byte(given))) {
+			e.m.Count("sshadd_passphrase_not_as_expected_on_wire", 1) // harness expectation about ssh-add, evidence only
+		} else if string(sent) != given {
+			e.m.Count("sshadd_passphrase_cut_at_line_end", 1)
+		} else {
+			e.m.Count("sshadd_passphrase_verbatim", 1)
+		}
+		if !bytes.Equal(c.op.Pass, sent) {
+			return fmt.Sprintf("server decoded passphrase %q, ssh-add sent %q on the wire (askpass was given %q)", c.op.Pass, sent, given)
+		}
+		return ""
+	}
 }
 
 func (e *addEnv) rcCheck(what string, rc int, allOK, allFail bool) bool {
@@ -542,7 +645,7 @@ func runSSHAdd(m *mon.M, pool []*testKey) {
 		keys, others := chooseUniverse(r, pool, 3, true)
 		w := &world{m: m, model: agentmodel.New(agentmodel.GoKeyring), keys: keys, others: others, maxWrongUnlock: -1,
 			paths: []*path{{name: "direct", ag: kr}}, ctx: map[string]any{"stream": "ssh-add", "case": i}}
-		e := &addEnv{m: m, w: w, rec: rec, sock: srv.path, plain: plainDir, certs: certDir, askpass: askpass}
+		e := &addEnv{m: m, w: w, rec: rec, sock: srv.path, plain: plainDir, certs: certDir, askpass: askpass, srv: srv}
 		// file universe: the plain keys of this sequence's universe
 		var files []*testKey
 		for _, k := range keys {
@@ -653,12 +756,7 @@ func runSSHAdd(m *mon.M, pool []*testKey) {
 			case x < 50: // ssh-add -x
 				pw := mon.Pick(r, []string{"secret", "pw one", "ñandú", "x"})
 				_, _, rc := e.run(pw, "-x")
-				_, allOK, allFail, ok := e.judge(agentmodel.Lock, func(c recCall) string {
-					if string(c.op.Pass) != pw {
-						return fmt.Sprintf("passphrase %q, ssh-add was given %q", c.op.Pass, pw)
-					}
-					return ""
-				})
+				_, allOK, allFail, ok := e.judge(agentmodel.Lock, e.passCheck(22, pw))
 				if !ok || !e.rcCheck("lock", rc, allOK, allFail) {
 					return
 				}
@@ -669,12 +767,7 @@ func runSSHAdd(m *mon.M, pool []*testKey) {
 					pw = string(w.model.Pass)
 				}
 				_, _, rc := e.run(pw, "-X")
-				_, allOK, allFail, ok := e.judge(agentmodel.Unlock, func(c recCall) string {
-					if string(c.op.Pass) != pw {
-						return fmt.Sprintf("passphrase %q, ssh-add was given %q", c.op.Pass, pw)
-					}
-					return ""
-				})
+				_, allOK, allFail, ok := e.judge(agentmodel.Unlock, e.passCheck(23, pw))
 				if !ok || !e.rcCheck("unlock", rc, allOK, allFail) {
 					return
 				}
